@@ -1,3 +1,155 @@
+/-
+  Driver/C13.lean — replays the C13 harness trace through the generic schema interpreter and
+  evaluates the property's specification on the implementation's own outputs.
+-/
 import NdnVerif.Driver.Common
--- stub: replaced by the C13 model driver
-def main : IO Unit := IO.println "DONE lines=0 histories=0 diffs=0 specs=0 skipped=0"
+import NdnVerif.C13.Text
+import NdnVerif.Gen.C13Schemas
+open Ndn Ndn.Driver Ndn.C13
+
+structure St where
+  cur : Option Schema := none
+
+def findSchema (n : String) : Option Schema := Ndn.Gen.C13.allSchemas.find? (·.name == n)
+
+def resText : Res Vals → String
+  | .ok vs _ => "ok " ++ (Val.struct vs).toText
+  | .err _ => "err"
+  | .panic => "PANIC model"
+  | .fuel => "FUEL model"
+
+def structOf (txt : String) : Option Vals :=
+  match Val.ofText txt with
+  | some (.struct vs) => some vs
+  | _ => none
+
+mutual
+def nonTrivialV : Bool → Val → Bool
+  | top, .struct vs => !top || nonTrivialVs vs
+  | _, .seq vs => vs.length > 0
+  | _, .map vs => vs.length > 0
+  | _, .bytes b => b.length ≥ 253
+  | _, .name n => n.any fun c => c.val.length ≥ 253
+  | _, _ => false
+def nonTrivialVs : Vals → Bool
+  | .nil => false
+  | .cons v vs => nonTrivialV false v || nonTrivialVs vs
+end
+
+def kindTag : Kind → String
+  | .natural _ => "natural" | .fixedUint _ _ => "fixedUint" | .time _ => "time" | .bool => "bool"
+  | .binary => "binary" | .string _ => "string" | .wire => "wire" | .name => "name"
+  | .struct _ _ => "struct" | .seq _ => "seq" | .map _ _ _ => "map" | .marker => "marker"
+  | .signature => "signature" | .interestName => "interestName"
+
+def topKinds : Fields → List String
+  | .nil => []
+  | .cons _ k fs => ("kind-" ++ kindTag k) :: topKinds fs
+
+def parseSel (s : String) : Option (List Nat) :=
+  if s == "-" then some [] else (s.splitOn ".").mapM String.toNat?
+
+def bad (st : St) : StepResult St := { st := st, expected := some "bad-op" }
+
+def noPanic (op got : String) (key : String) : List SpecFail :=
+  if isCrash got then [⟨"no-panic", key, s!"{op}: the generated code crashed: {got}"⟩] else []
+
+def stepC13 (st : St) (op : String) (got : String) : StepResult St :=
+  match op.splitOn " " with
+  | ["new", "regen"] => { st := { cur := none }, expected := some "ok" }
+  | ["new", name] =>
+    match findSchema name with
+    | some s => { st := { cur := some s }, expected := some "ok", cov := [if s.ordered then "model-ordered" else "model-unordered"] }
+    | none => { st := { cur := none }, expected := some "skip" }
+  | ["regen", dir] =>
+    { st := st, expected := some "same", cov := ["regen"], nontrivial := true,
+      spec := if got != "same" then
+        [⟨"generator-output", dir, s!"zz_generated.go in {dir} is not what the checked-in generator produces: {got}"⟩] else [] }
+  | "enc" :: [txt] =>
+    match st.cur, structOf txt with
+    | some s, some vs =>
+      let toks := got.splitOn " "
+      let implHex := toks.getD 2 ""
+      let implBytes := (bytesOfHex implHex).getD []
+      -- Go map iteration order is arbitrary: follow the implementation's order when it decodes to the same value
+      let vOrd := match parse s false implBytes with
+        | .ok vs' _ => if (Val.struct vs').toText == (Val.struct vs).toText then vs' else vs
+        | _ => vs
+      let mb := encode s vOrd
+      let len := encLen s vOrd
+      let wr := toks.getD 1 ""
+      let expected := s!"{len} {if wr == "-" then "-" else toString len} {hexOrDash mb}"
+      let specLen :=
+        if isCrash got then []
+        else
+          let ann := toks.getD 0 ""
+          (if toString implBytes.length != ann then
+            [⟨"announced-length", s.name, s!"encoder announced {ann} bytes but produced {implBytes.length}"⟩] else []) ++
+          (if wr != "-" && wr != ann then
+            [⟨"announced-length", s.name, s!"encoder announced {ann} bytes but EncodeInto wrote {wr}"⟩] else [])
+      { st := st, expected := some expected, spec := noPanic op got s.name ++ specLen,
+        cov := "enc" :: topKinds s.fields, nontrivial := nonTrivialVs vs }
+    | _, _ => bad st
+  | ["rt", txt, cuts] =>
+    match st.cur, structOf txt with
+    | some s, some vs =>
+      let want := "ok " ++ (Val.struct vs).toText
+      let rd := if cuts == "-" then "buf" else "wire"
+      { st := st, expected := some want, cov := ["rt-" ++ rd], nontrivial := nonTrivialVs vs,
+        spec := noPanic op got s.name ++
+          (if !isCrash got && got != want then
+            [⟨"round-trip", s.name ++ ":" ++ rd, s!"decode(encode v) ≠ v through the {rd} reader: got {got.take 200}"⟩] else []) }
+    | _, _ => bad st
+  | ["ins", ic, txt, selS, kS, junkHex] =>
+    match st.cur, structOf txt, parseSel selS, kS.toNat?, bytesOfHex junkHex with
+    | some s, some vs0, some sel, some k, some junk =>
+      -- Go map iteration order is arbitrary: follow the implementation's order when it decodes to the same value
+      let implBytes := (bytesOfHex ((got.splitOn " ").getD 0 "")).getD []
+      let vs := match parse s true implBytes with
+        | .ok vs' _ => if (Val.struct vs').toText == (Val.struct vs0).toText then vs' else vs0
+        | _ => vs0
+      match insAt s.fields vs sel k junk with
+      | none => { st := st, expected := some "skip", cov := ["ins-skip"] }
+      | some nb =>
+        let icb := ic == "1"
+        let expected := hexOrDash nb ++ " " ++ resText (parse s icb nb)
+        let jt := (decTL junk).map (·.1)
+        let known := match jt with
+          | some t => (fieldsTypes s.fields).contains t
+          | none => true
+        let res := " ".intercalate ((got.splitOn " ").drop 1)
+        let want := "ok " ++ (Val.struct vs).toText
+        let crit := match jt with | some t => critical t | none => false
+        let (tag, spec) :=
+          if known || isCrash got || got == "skip" then ("ins-known", [])
+          else if crit && !icb then
+            ("ins-critical", if res != "err" then
+              [⟨"unknown-critical-rejected", s.name, s!"an unrecognised CRITICAL element was accepted: {res.take 200}"⟩] else [])
+          else
+            (if crit then "ins-critical-ignored" else "ins-noncritical", if res != want then
+              [⟨"unknown-noncritical-skipped", s.name ++ (if s.ordered then ":ordered" else ""),
+                s!"an unrecognised {if crit then "critical (ignoreCritical)" else "non-critical"} element at position {selS}/{kS} was not skipped cleanly: {res.take 200}"⟩] else [])
+        { st := st, expected := some expected, spec := noPanic op got s.name ++ spec,
+          cov := [tag] ++ (if sel.isEmpty then [] else ["ins-nested"]), nontrivial := true }
+    | _, _, _, _, _ => bad st
+  | ["mut", ic, _txt, _how, _a, _b] =>
+    match st.cur with
+    | some s =>
+      if got == "skip" then { st := st, expected := some "skip" }
+      else if isCrash got then { st := st, expected := some "no-panic", spec := noPanic op got s.name }
+      else
+        let hex := (got.splitOn " ").getD 0 ""
+        match bytesOfHex hex with
+        | some nb =>
+          let r := parse s (ic == "1") nb
+          { st := st, expected := some (hex ++ " " ++ resText r),
+            cov := [match r with | .ok _ _ => "mut-ok" | _ => "mut-err"] }
+        | none => bad st
+    | none => bad st
+  | _ => bad st
+
+def stepC13' (st : St) (op : String) (got : String) : StepResult St :=
+  if got == "skip" && !(op.startsWith "ins") && !(op.startsWith "new") then { st := st, expected := some "skip" }
+  else stepC13 st op got
+
+def main : IO Unit := Ndn.Driver.run ({} : St) stepC13'
